@@ -95,7 +95,9 @@ func c01GenScenario(r *Rng, thorough bool, focus string) *c01Scenario {
 	if r.Chance(2, 5) {
 		v |= 8
 	}
-	if thorough && r.Chance(1, 6) {
+	// small queue quota: thorough only while the hand-back-under-quota defect was open; since its repair
+	// (b472f48) also in the quick tier, so that a regression is a violation there too
+	if r.Chance(1, 6) {
 		v |= 16
 	}
 	if r.Chance(1, 8) {
